@@ -2,7 +2,7 @@
 TCB = "Trusted: the harness' VT emulator and gated reader (validated by ./check SELF), the Linux pty line discipline, the Go runtime. Says nothing about inputs/schedules not driven; bounds are in DESIGN.md section 5."
 
 check("C01", "exploration",
-      "Crash / read-storm / deadlock / CPU-and-memory runaway detectors over thousands of PRNG-determined Readline sessions (every bound sequence of every keymap, hostile bytes, EOF/EIO injected at random prefixes; every second session is directed: operator x object x argument key, surround commands and every binding with its argument, on 27 shaped buffers at every cursor position; one session in three binds 1-6 commands that have no default binding to probe keys and uses them). Held = none of the refuting events on the executions produced.",
+      "Crash / read-storm / deadlock / CPU-and-memory runaway detectors over thousands of PRNG-determined Readline sessions (every bound sequence of every keymap, hostile bytes, EOF/EIO injected at random prefixes; every second session is directed: operator x object x argument key, surround commands and every binding with its argument, on 27 shaped buffers at every cursor position; one session in three binds 1-6 registered commands - those without a default binding, or any - to probe keys and uses them with small, zero and negative arguments; application prompts on the right / tooltip / secondary / transient, history sources removed between two calls, merged and message-only completions, case-folding prefixes under completion-ignore-case). Held = none of the refuting events on the executions produced.",
       TCB, "runtime monitoring: crash/deadlock/spin detectors on real sessions with fault injection", "DESIGN.md 5 C01")
 
 check("C02", "exploration",
@@ -10,11 +10,11 @@ check("C02", "exploration",
       TCB, "runtime monitoring: identity oracle on real Readline sessions", "DESIGN.md 5 C02")
 
 check("C03", "exploration",
-      "Reference-model monitor: probe commands bound to generated overlapping bind tables (incl. macros) in an emptied main keymap; the probe invocation log (which binding, at which delivered chunk) must equal an independent longest-match dispatcher on thousands of (table, input, chunking) triples.",
+      "Reference-model monitor: probe commands bound to generated overlapping bind tables (incl. macros) in an emptied main keymap; the probe invocation log (which binding, at which delivered chunk) must equal an independent longest-match dispatcher on thousands of (table, input, chunking) triples; one table in four is put in place through the API after a first call dispatched keys with another table.",
       TCB + " Inputs whose expected behaviour the statement leaves open are skipped and counted.", "runtime monitoring: reference dispatcher vs probe-command invocation log", "DESIGN.md 5 C03")
 
 check("C04", "exploration",
-      "Independent layout oracle vs the emulator grid at every main input wait (prompt cells, wrapping incl. wide characters at the margin, one row per embedded newline, blank elsewhere, cursor cell, no remnants of earlier taller frames), judged under two ESC[K terminal models (violation only if wrong under both), over thousands of recall+edit sessions on 8-120 column terminals (histories with wrapped single lines next to short multi-line entries; cells left of continuation lines must be blank or a decoration glyph).",
+      "Independent layout oracle vs the emulator grid at every main input wait (prompt cells, wrapping incl. wide characters at the margin, one row per embedded newline, blank elsewhere, cursor cell, no remnants of earlier taller frames), judged under two ESC[K terminal models (violation only if wrong under both), over thousands of recall+edit sessions on 8-120 column terminals (histories with wrapped single lines next to short multi-line entries; cells left of continuation lines must be blank or a decoration glyph; one Emacs session in four shows application status hints of widths around the terminal width).",
       TCB + " Frames are classed by geometric cause (plain / tab / zero-width / wide-at-margin / exact-fill / wrapped multi-line / narrow prompt); known findings cover only the listed non-plain classes.", "runtime monitoring: terminal emulator + independent layout model", "DESIGN.md 5 C04")
 
 check("C05", "exploration",
@@ -22,11 +22,11 @@ check("C05", "exploration",
       TCB + " Scripts are well-formed keyboard input (valid UTF-8, complete sequences); in Vi modes the boundary directly after ESC is kept as in the base schedule.", "runtime monitoring: differential testing over controlled delivery schedules", "DESIGN.md 5 C05")
 
 check("C10", "fault_enumeration",
-      "Round trip of generated write sequences through a reopened file-backed history, and enumeration of crash points: the file cut at every byte offset of the last append (sampled for records > 4 KiB) must reopen without error with all completed entries, and an entry appended afterwards through the API - NewHistoryFromFile, or a Shell-bound source (History.AddFromFile) at every third point - must survive another reopen.",
+      "Round trip of generated write sequences through a reopened file-backed history, and enumeration of crash points: the file cut at every byte offset of the last append (sampled for records > 4 KiB) must reopen without error with all completed entries, and an entry appended afterwards through the API - NewHistoryFromFile, or a Shell-bound source (History.AddFromFile) at every third point - must survive another reopen; at every fourth point a second source opened before the torn append writes the entry; every 100th case holds a record of 1-3 MiB.",
       "Crash model: process death during the single O_APPEND write leaves a byte prefix of the record (no power-loss / fsync claims). Real files on the sandbox file system.", "runtime monitoring: fault enumeration (every truncation offset) on the real history file code", "DESIGN.md 5 C10")
 
 check("C12", "exploration",
-      "Totality monitor: tens of thousands of mutated inputrc texts (truncations, byte flips, lone modifiers/directives, unterminated quotes, deep $if, 64 KiB-1 MiB lines, CR/LF/NUL mixes, random bytes) x options x include graphs (self, cycle, chain, diamond, missing, erroring, files including their own cycle twice) parsed in worker processes through ParseBytes, Parser.Parse and the real NewShell(INPUTRC) start-up path; no panic, no fatal error (attributed by the driver), bounded ReadFile calls.",
+      "Totality monitor: tens of thousands of mutated inputrc texts (truncations, byte flips, lone modifiers/directives, unterminated quotes, deep $if, 64 KiB-1 MiB lines, CR/LF/NUL mixes, random bytes) x options x include graphs (self, cycle, chain, diamond, missing, erroring, files including their own cycle twice) parsed in worker processes through ParseBytes, Parser.Parse, a handler without ReadFileFunc and the real NewShell(INPUTRC) start-up path; no panic, no fatal error (attributed by the driver), bounded ReadFile calls.",
       "A fatal runtime error kills the worker; the driver attributes it to the running case. Recursion bound is logical (ReadFile calls), not wall clock.", "runtime monitoring: crash/recursion monitors over mutated inputs in child processes", "DESIGN.md 5 C12")
 
 check("C13", "exploration",
@@ -34,7 +34,7 @@ check("C13", "exploration",
       "Reference semantics are the statement's (a directive is live iff every enclosing arm is live); key notation decoded from the generator's own choice of notation.", "runtime monitoring: reference evaluator (executable model) vs parsed configuration", "DESIGN.md 5 C13")
 
 check("C19", "exploration",
-      "Round-trip law Unescape(Escape(s)) == s / Unescape(EscapeMacro(s)) == s: exhaustive over every rune 0x00-0xFF and every pair, every default binding and macro, random sequences incl. Unicode; for each of them also the bind / macro line the dump commands would print (notation between double quotes) parsed back with the inputrc parser; plus sessions running dump-functions/-variables/-macros with a numeric argument on generated configurations, whose captured terminal output is parsed back and compared with the live configuration.",
+      "Round-trip law Unescape(Escape(s)) == s / Unescape(EscapeMacro(s)) == s: exhaustive over every rune 0x00-0xFF and every pair, every default binding and macro, random sequences incl. Unicode; for each of them also the bind / macro line the dump commands would print (notation between double quotes) parsed back with the inputrc parser; plus sessions running dump-functions/-variables/-macros with a numeric argument on generated configurations, whose captured terminal output is parsed back and compared with the live configuration, one session in three a second time after binds were changed through the API.",
       TCB, "runtime monitoring: inverse-law oracle (exhaustive for length <= 2) + dump/re-parse sessions", "DESIGN.md 5 C19")
 
 check("C06", "exploration",
@@ -46,7 +46,7 @@ check("C07", "exploration",
       TCB, "runtime monitoring: trace checkers (membership, timeline order model, inverse laws) over snapshot sequences", "DESIGN.md 5 C07")
 
 check("C08", "exploration",
-      "Per-source before/after diff of 1-3 bound history sources (in-memory, file-backed, a Write-counting harness source) across 1-4 consecutive Readline calls with 7 accept variants, 5 history-size settings and blank/duplicate/padded/Unicode/multi-line lines: exactly one append of the trimmed line for ordinary accepts unless blank or duplicate of that source's newest entry, unchanged otherwise, limit honoured only from N entries on; a file-backed source is reloaded from disk after every call and must equal the open source, one in four starts with a torn last record.",
+      "Per-source before/after diff of 1-3 bound history sources (in-memory, file-backed, a Write-counting harness source) across 1-4 consecutive Readline calls with 7 accept variants, 5 history-size settings and blank/duplicate/padded/Unicode/multi-line lines: exactly one append of the trimmed line for ordinary accepts unless blank or duplicate of that source's newest entry, unchanged otherwise, limit honoured only from N entries on; a file-backed source is reloaded from disk after every call and must equal the open source, one in four starts with a torn last record, one source in twelve holds 499-1500 entries.",
       TCB, "runtime monitoring: conservation check (before/after diff, Write-call count) on bound history sources", "DESIGN.md 5 C08")
 
 check("C09", "exploration",
@@ -74,11 +74,11 @@ check("C17", "exploration",
       TCB, "runtime monitoring: differential oracle (delete vs yank) over paired sessions", "DESIGN.md 5 C17")
 
 check("C18", "exploration",
-      "Differential oracle on pairs of sessions: the key script K typed twice vs K recorded and replayed (Emacs C-x ( ... C-x ) C-x e; Vi q<r> ... q @<r> over 10 registers), K = 1-12 tokens of text with quotes/backslashes/escape look-alikes, control keys, ESC-prefixed keys, CSI keys, quoted-insert, digit arguments, Vi commands with counts and argument keys, operators with text objects and surround characters, named registers; one case in four with AcceptMultiline set and a refused Return inside K; one case in five after an empty recording on the same Shell; final buffer texts must be equal.",
+      "Differential oracle on pairs of sessions: the key script K typed twice vs K recorded and replayed (Emacs C-x ( ... C-x ) C-x e; Vi q<r> ... q @<r> over 10 registers), K = 1-12 tokens of text (ASCII and non-ASCII) with quotes/backslashes/escape look-alikes, control keys, ESC-prefixed keys, CSI keys, quoted-insert, digit arguments, Vi commands with counts and argument keys, operators with text objects and surround characters, named registers; one case in four with AcceptMultiline set and a refused Return inside K; one case in five after an empty recording on the same Shell; final buffer texts must be equal.",
       TCB + " In Vi scripts a key that would combine with a directly preceding ESC into a bound sequence is excluded (replay carries no timing; same exclusion as C05).", "runtime monitoring: differential oracle (retype vs record+replay) over paired sessions", "DESIGN.md 5 C18")
 
 check("C20", "exploration",
-      "Race-detector build. Each script runs undisturbed and then with SIGWINCH (real size changes, bursts of 2-20) and Shell.Printf from a second goroutine fired at logical trigger points: at an input wait of the main loop or of a command reading its argument key, and inside a redisplay (the emulator holds the main loop's cursor answer until the disturber has queried too, then answers in either order or in one write). Half of the cases have a clean schedule (single disturbances, each fired while the main loop is really parked in its terminal read and run to its end before the next keys, optionally with the next keys typed in the same write as the terminal's answer to the disturber); findings are keyed by schedule class and known findings exist for overlapping schedules only. Oracles: no crash, no deadlock / stuck keystroke / resize or Printf goroutine blocked for good in its cursor query (logical criteria on goroutine dumps, gate counters and the tty queue), same (line, err) as the undisturbed run, consistent screen after the next redisplay, and no data race report with a library frame outside the calibrated known set.",
+      "Race-detector build. Each script runs undisturbed and then with SIGWINCH (real size changes, bursts of 2-20) and Shell.Printf from a second goroutine fired at logical trigger points: at an input wait of the main loop or of a command reading its argument key, and inside a redisplay (the emulator holds the main loop's cursor answer until the disturber has queried too, then answers in either order or in one write). Half of the cases have a clean schedule (single disturbances, each fired while the main loop is really parked in its terminal read and run to its end before the next keys, optionally with the next keys typed in the same write as the terminal's answer to the disturber); one case in sixteen resizes under a displayed completion list; findings are keyed by schedule class and known findings exist for overlapping schedules only. Oracles: no crash, no deadlock / stuck keystroke / resize or Printf goroutine blocked for good in its cursor query (logical criteria on goroutine dumps, gate counters and the tty queue), same (line, err) as the undisturbed run, consistent screen after the next redisplay, and no data race report with a library frame outside the calibrated known set.",
       TCB + " Which interleavings are realised is reported (evidence: trigger_points_realised, race_entry_pairs, race_functions_seen); a clean run says nothing about interleavings not realised.", "runtime monitoring: Go race detector + deadlock/stuck-keystroke detectors + differential vs undisturbed run under controlled disturbance schedules", "DESIGN.md 5 C20")
 
 for _p in ["C03","C04","C05","C06","C07","C08","C09","C10","C11","C12","C13","C14","C15","C16","C17","C18","C19","C20"]:
